@@ -983,7 +983,7 @@ fn run_stale_parms(c: &mut Ctx) {
 
 fn run_witnesses(c: &mut Ctx) {
     // tie of Lean `decompress_empty_filter_witness`: `Filter []` — get_plain_content returns the content,
-    // decompress() replaces it by the empty string (outside the property's chains of length 1..3; reported, not registered)
+    // decompress() used to replace it by the empty string (finding F-C09-d, repaired by lopdf 70e5e99)
     if let Some(_) = c.case("witness.empty_filter", 0) {
         let mut d = Dictionary::new();
         d.set("Filter", Object::Array(vec![]));
@@ -992,7 +992,9 @@ fn run_witnesses(c: &mut Ctx) {
         let _ = decode_and_corr(c, &s);
         let mut s2 = s.clone();
         let _ = s2.decompress();
-        c.count(if matches!(&before, Ok(Ok(v)) if v == &[1u8, 2, 3]) && s2.content.is_empty() { "empty_filter.decompress_erases_content" } else { "empty_filter.decompress_keeps_content" });
+        let erased = matches!(&before, Ok(Ok(v)) if v == &[1u8, 2, 3]) && s2.content.is_empty();
+        c.count(if erased { "empty_filter.decompress_erases_content" } else { "empty_filter.decompress_keeps_content" });
+        c.witness("F-C09-d", erased, "decompress() of a stream with /Filter [] replaces its content by the empty string");
     }
     // regression: F-C09-a (repaired by e2fc7b5) — Average must halve the SUM of left and above
     if let Some(_) = c.case("witness.avg", 0) {
